@@ -15,6 +15,8 @@ NASTY = [
     "and", "or", "not", "in", "true", "false", "null", "nil", "none", "None", "True",
     "length", "count", "contains", "undefined", "missing", "a-b", "a b", "A",
     # names that differ from their own Unicode normal forms / case foldings (and the forms they would collapse into)
+    # text that looks like an escape of a surrogate half once its backslash is itself escaped; names that begin with a reserved word
+    "\\ud83d", "x\\uDE00", "\\udc00\\ud800", "C:\\udd00\\file", "nilx", "Nile", "nullable", "nonesuch", "index", "order", "notes", "android", "truex", "containsx",
     "e\u0301", "\u212b", "\u00c5", "\u2126", "\u03a9", "\ufb01", "fi", "\u1e9b\u0323", "\u0130", "i\u0307", "\u00df", "ss", "\u1e9e",
 ]
 
